@@ -3,6 +3,8 @@ import MithrilModel.Handlers.C09
 import MithrilModel.Proofs
 import MithrilModel.Sha256
 import MithrilModel.CertModel
+import MithrilModel.Prover
+import MithrilModel.ClientMsg
 namespace Handlers.C11
 open Proto Proofs MkProof
 
@@ -47,8 +49,98 @@ def pmhashReq (r : Req) : Option String := do
     | _ => none
   pure (String.ofList ((CertModel.pmHash Sha256.hashL pm).map fun x => Char.ofNat x.toNat))
 
+/-! ### the aggregator's provers (`c11.history`) -/
+section prover
+open Prover
+
+def parseBlk : Val → Option Blk
+  | .l [n, id, slot, txs] => do pure { number := ← n.nat?, hash := ← id.nat?, slot := ← slot.nat?, txs := ← txs.nats? }
+  | _ => none
+
+def parseOp : Val → Option Op
+  | .l [.s "grow", bs] => do pure (.grow (← (← bs.list?).mapM parseBlk))
+  | .l [.s "imp", n] => do pure (.imp (← n.nat?))
+  | .l [.s "sign2", u] => do pure (.sign2 (← u.nat?))
+  | .l [.s "signl", u] => do pure (.signL (← u.nat?))
+  | .l [.s "cache2", u] => do pure (.cache2 (← u.nat?))
+  | .l [.s "cachel", u] => do pure (.cacheL (← u.nat?))
+  | .l [.s "ptx", u, q] => do pure (.ptx (← u.nat?) (← q.nats?))
+  | .l [.s "pblk", u, q] => do pure (.pblk (← u.nat?) (← q.nats?))
+  | .l [.s "pl", u, q] => do pure (.pl (← u.nat?) (← q.nats?))
+  | _ => none
+
+def showPErr : PErr → String
+  | .timeout => "timeout" | .noKey => "nokey" | .rootDiffers => "root"
+
+def showItem : Item → String
+  | .block h n s => s!"({h},{n},{s})"
+  | .tx t b n s => s!"({t},{b},{n},{s})"
+
+/-- ordinal of first appearance of a root (a map content) among the roots seen in the history -/
+def rootId {α : Type} [BEq α] (seen : List α) (m : α) : List α × Nat :=
+  match seen.findIdx? (· == m) with
+  | some i => (seen, i)
+  | none => (seen ++ [m], seen.length)
+
+def showObs (seen2 : List (RMap Item)) (seenL : List (RMap Nat)) : Obs → List (RMap Item) × List (RMap Nat) × String
+  | .grown => (seen2, seenL, "-")
+  | .cached => (seen2, seenL, "ok")
+  | .stored n a l => (seen2, seenL, s!"s{n},{a},{l}")
+  | .signed2 m =>
+    if m.isEmpty then (seen2, seenL, "err") else let (s', i) := rootId seen2 m; (s', seenL, s!"R{i}")
+  | .signedL m =>
+    if m.isEmpty then (seen2, seenL, "err") else let (s', i) := rootId seenL m; (seen2, s', s!"L{i}")
+  | .proved2 req o m =>
+    match o with
+    | .none => (seen2, seenL, "nonenc" ++ showNats req)
+    | .err e => (seen2, seenL, "err:" ++ showPErr e ++ "nc" ++ showNats req)
+    | .ok items =>
+      let (s', i) := rootId seen2 m
+      (s', seenL, "ok[" ++ String.intercalate "," (items.map showItem) ++ "]nc" ++
+        showNats (nonCertified req (items.map Item.key)) ++ s!"R{i}")
+  | .provedL req o m =>
+    match o with
+    | .err e => (seen2, seenL, "err:" ++ showPErr e ++ "nc" ++ showNats req)
+    | .ok [] => (seen2, seenL, "ok[]nc" ++ showNats req)
+    | .ok c =>
+      let (s', i) := rootId seenL m
+      (seen2, s', "ok" ++ showNats c ++ "nc" ++ showNats (nonCertified req c) ++ s!"L{i}")
+
+/-- `c11.history ops=[…]` → per op, `;`-joined: `-` | `s<blocks>,<roots>,<legacy roots>` | `R<i>`/`L<i>`/`err` | `ok` |
+`none|err:<class>|ok[items]` `nc[not certified]` `R<i>` -/
+def historyReq (r : Req) : Option String := do
+  let ops ← (← r.list "ops").mapM parseOp
+  let (_, obs) := Prover.run {} ops
+  let (_, _, outs) := obs.foldl (fun (acc : List (RMap Item) × List (RMap Nat) × List String) o =>
+    let (a, b, t) := showObs acc.1 acc.2.1 o
+    (a, b, acc.2.2 ++ [t])) ([], [], [])
+  pure (String.intercalate ";" outs)
+
+end prover
+
+/-! ### the client's message builder (`c11.rebuild`) -/
+
+def parsePartC : Val → Option ClientMsg.Part
+  | .l [o, v] => do pure (← o.nat?, (← hexDecode (← v.str?)).map fun b => Char.ofNat b.toNat)
+  | _ => none
+
+/-- SHA-256 of the text, as the lower-case hex string `compute_hash` returns -/
+def digestC (t : List Char) : String :=
+  String.ofList ((CertModel.hexOf (Sha256.hashL (t.map fun c => UInt8.ofNat c.toNat))).map fun x => Char.ofNat x.toNat)
+
+/-- `c11.rebuild cert=[(ord,valhex)…] set=[(ord,valhex)…] signed=<digest>` → digest of the message the builder
+returns and the verdict of `match_message` -/
+def rebuildReq (r : Req) : Option String := do
+  let cert ← (← r.list "cert").mapM parsePartC
+  let sets ← (← r.list "set").mapM parsePartC
+  let signed ← r.str "signed"
+  let m := ClientMsg.rebuild cert sets
+  pure s!"{digestC (ClientMsg.pre m)} {if ClientMsg.matchMessage digestC m signed then 1 else 0}"
+
 def handle (r : Req) : Option String :=
   match r.op with
+  | "c11.rebuild" => rebuildReq r
+  | "c11.history" => historyReq r
   | "c11.legacy" => legacyReq r
   | "c11.v2" => v2Req r
   | "c11.mkroot" => mkrootReq r
